@@ -174,6 +174,7 @@ func (e *Engine) adopt(parent *Node, m MV) {
 	if c := nodeOf(m); c != nil {
 		c.Parent = parent
 		c.ParentShape = parent.Shape
+		c.HandleParentGen = parent.Gen // the handle from insertion is bound to the parent's current handle object
 	}
 }
 
@@ -251,6 +252,7 @@ func (e *Engine) arrayOp(n *Node, op *Op) error {
 		if err := e.acquire(c); err != nil {
 			return err
 		}
+		a = n.HA // acquiring the child may have re-acquired its ancestors
 		if err := e.growUntilStandalone(c); err != nil {
 			return err
 		}
@@ -541,6 +543,7 @@ func (e *Engine) mapOp(n *Node, op *Op) error {
 		if err := e.acquire(c); err != nil {
 			return err
 		}
+		m = n.HM // acquiring the child may have re-acquired its ancestors
 		if err := e.growUntilStandalone(c); err != nil {
 			return err
 		}
@@ -565,6 +568,9 @@ func (e *Engine) mapOp(n *Node, op *Op) error {
 		e.Stats.label("reassign_same_child")
 		if wrapLevels(n.Ents[ck].V) > 0 {
 			e.Stats.label("reassign_same_wrapped_child")
+		}
+		if err := e.dbg("after reassign"); err != nil {
+			return err
 		}
 		if op.D == 0 {
 			return e.shrinkToFew(c)
@@ -909,6 +915,8 @@ func (e *Engine) reattach(op *Op) error {
 	d.Root = atree.SlabIDUndefined
 	d.Parent = dst
 	d.ParentShape = dst.Shape
+	d.HandleParentGen = dst.Gen
+	d.Former = nil
 	e.Stats.label("reattached")
 	return nil
 }
@@ -1119,8 +1127,24 @@ func childInlined(c *Node) bool {
 }
 
 // growUntilStandalone appends to nested container c until it no longer fits inline (bounded).
+func (e *Engine) dbg(what string) error {
+	if !e.DebugVerify {
+		return nil
+	}
+	if err := e.VerifyAll(); err != nil {
+		return fmt.Errorf("[debug: %s] %w", what, err)
+	}
+	return nil
+}
+
 func (e *Engine) growUntilStandalone(c *Node) error {
+	if err := e.dbg("before grow"); err != nil {
+		return err
+	}
 	for i := 0; i < 40 && childInlined(c); i++ {
+		if err := e.dbg(fmt.Sprintf("grow round %d", i)); err != nil {
+			return err
+		}
 		var err error
 		if c.IsMap {
 			if c.TI.Comp {
